@@ -101,20 +101,25 @@ Qed.
 
 (* ------------------------------------------------------------------ soundness of the matcher *)
 Theorem verify_uri_sound regs native oidc u :
-  regs <> [] -> verify_uri regs native oidc u = Ok tt ->
+  verify_uri regs native oidc u = Ok tt ->
   exists d p r rp,
     unquote u = Ok d /\ urlparse d = Ok p /\ In r regs /\ parse_reg r = Ok rp /\
     fragment p = [] /\ hostname p <> None /\ (exists po, port p = Ok po) /\
     (path p = [] \/ starts_with [47] (path p) = true) /\
     scheme p = scheme (fst rp) /\ path p = path (fst rp) /\ params p = params (fst rp) /\ fragment (fst rp) = [] /\
-    (exists qd, parse_qs (query p) = Ok qd /\ qd_eqb qd (snd rp) = true) /\
+    (exists qd, parse_qs true (query p) = Ok qd /\ qd_eqb qd (snd rp) = true) /\
     (if native
      then exists p' r', norm_native p = Ok p' /\ norm_native (fst rp) = Ok r' /\ netloc p' = netloc r'
-     else netloc p = netloc (fst rp)).
+     else netloc p = netloc (fst rp)) /\
+    dirty d = false /\ has_c 35 d = false.
 Proof.
-  intros Hne H. unfold verify_uri in H.
-  apply bind_ok in H as [d [Hd H]]. apply bind_ok in H as [p [Hp H]]. apply bind_ok in H as [[] [Hb H]].
-  destruct regs as [|r0 regs0]; [congruence|]. set (regs := r0 :: regs0) in *.
+  intros H. unfold verify_uri in H.
+  apply bind_ok in H as [d [Hd H]].
+  destruct (dirty d) eqn:Edirty; [discriminate|].
+  apply bind_ok in H as [p [Hp H]].
+  destruct (has_c 35 d) eqn:Ehash; [discriminate|].
+  apply bind_ok in H as [[] [Hb H]].
+  destruct regs as [|r0 regs0]; [discriminate|]. set (regs := r0 :: regs0) in *.
   apply bind_ok in H as [rs [Hrs H]]. apply bind_ok in H as [p' [Hp' H]].
   apply bind_ok in H as [rs' [Hrs' H]]. apply bind_ok in H as [qd [Hqd H]].
   destruct (existsb (match1 p' qd) rs') eqn:Ex; [|discriminate].
@@ -138,39 +143,50 @@ Qed.
 
 (* web clients: every component, including user information, host and port, is that of a registered URI *)
 Corollary verify_uri_sound_web regs oidc u :
-  regs <> [] -> verify_uri regs false oidc u = Ok tt ->
+  verify_uri regs false oidc u = Ok tt ->
   exists d p r rp,
     unquote u = Ok d /\ urlparse d = Ok p /\ In r regs /\ parse_reg r = Ok rp /\
     fragment p = [] /\ scheme p = scheme (fst rp) /\ netloc p = netloc (fst rp) /\
     hostname p = hostname (fst rp) /\ port p = port (fst rp) /\
     path p = path (fst rp) /\ params p = params (fst rp) /\
-    (exists qd, parse_qs (query p) = Ok qd /\ qd_eqb qd (snd rp) = true).
+    (exists qd, parse_qs true (query p) = Ok qd /\ qd_eqb qd (snd rp) = true).
 Proof.
-  intros Hne H. destruct (verify_uri_sound _ _ _ _ Hne H) as (d & p & r & rp & H1 & H2 & H3 & H4 & H5 & H6 & H7 & H8 & H9 & H10 & H11 & H12 & H13 & H14).
+  intros H. destruct (verify_uri_sound _ _ _ _ H) as (d & p & r & rp & H1 & H2 & H3 & H4 & H5 & H6 & H7 & H8 & H9 & H10 & H11 & H12 & H13 & H14 & H15 & H16).
   exists d, p, r, rp. repeat split; auto using hostname_netloc, port_netloc.
 Qed.
 
-(* a fragment, a missing host, a relative path or a bad port can never be accepted *)
+(* control characters, surrounding white space, a fragment delimiter, a missing host, a relative path or a
+   bad port can never be accepted *)
+Theorem verify_uri_refuses_dirty regs native oidc u d :
+  unquote u = Ok d -> dirty d = true -> verify_uri regs native oidc u = Err uri_error.
+Proof. intros Hd H. unfold verify_uri. rewrite Hd. cbn [bind]. now rewrite H. Qed.
+
 Theorem verify_uri_refuses regs native oidc u d p :
-  unquote u = Ok d -> urlparse d = Ok p ->
-  (fragment p <> [] \/ hostname p = None \/ (path p <> [] /\ starts_with [47] (path p) = false) \/ port p = Err ValueError) ->
+  unquote u = Ok d -> dirty d = false -> urlparse d = Ok p ->
+  (has_c 35 d = true \/ fragment p <> [] \/ hostname p = None
+   \/ (path p <> [] /\ starts_with [47] (path p) = false) \/ port p = Err ValueError) ->
   verify_uri regs native oidc u = Err uri_error.
 Proof.
-  intros Hd Hp H. unfold verify_uri. rewrite Hd. cbn [bind]. rewrite Hp. cbn [bind].
+  intros Hd Hdirty Hp H. unfold verify_uri. rewrite Hd. cbn [bind]. rewrite Hdirty, Hp. cbn [bind].
+  destruct (has_c 35 d) eqn:Eh; [reflexivity|].
+  destruct H as [H|H]; [discriminate|].
   assert (E : basic_checks p = Err uri_error).
   { unfold basic_checks. destruct (fragment p) as [|c f] eqn:Ef; [|reflexivity]. cbn [nonempty].
-    destruct (hostname p) as [h|] eqn:Eh; [|reflexivity].
+    destruct (hostname p) as [h|] eqn:Eh2; [|reflexivity].
     destruct H as [H|[H|[[H1 H2]|H]]]; try congruence.
     - rewrite H2. destruct (path p); [congruence|reflexivity].
     - destruct (nonempty (path p) && negb (starts_with [47] (path p))); [reflexivity|]. now rewrite H. }
   now rewrite E.
 Qed.
 
-(* an OIDC client without registered URIs is always refused *)
-Theorem verify_uri_nothing_registered_oidc native u : verify_uri [] native true u <> Ok tt.
+(* a client without registered URIs is always refused, for every endpoint type *)
+Theorem verify_uri_nothing_registered native oidc u : verify_uri [] native oidc u <> Ok tt.
 Proof.
   unfold verify_uri. destruct (unquote u); cbn; try discriminate.
-  destruct (urlparse a); cbn; try discriminate. destruct (basic_checks a0); cbn; discriminate.
+  destruct (dirty a); [discriminate|].
+  destruct (urlparse a); cbn; try discriminate.
+  destruct (has_c 35 a); [discriminate|].
+  destruct (basic_checks a0); cbn; discriminate.
 Qed.
 
 (* ------------------------------------------------------------------ completeness: a registered URI itself is accepted *)
@@ -193,11 +209,13 @@ Definition regs_ok (regs : list reg) (native : bool) : Prop :=
 
 Theorem verify_uri_complete regs native oidc b p :
   In (RPair b None) regs -> regs_ok regs native ->
-  plain b = true -> urlparse b = Ok p -> basic_checks p = Ok tt -> query p = [] ->
+  plain b = true -> dirty b = false -> has_c 35 b = false ->
+  urlparse b = Ok p -> basic_checks p = Ok tt -> query p = [] ->
   verify_uri regs native oidc b = Ok tt.
 Proof.
-  intros Hin [rs [Hrs Hnat]] Hpl Hp Hb Hq.
-  unfold verify_uri. rewrite (unquote_plain b Hpl). cbn [bind]. rewrite Hp. cbn [bind]. rewrite Hb. cbn [bind].
+  intros Hin [rs [Hrs Hnat]] Hpl Hdirty Hhash Hp Hb Hq.
+  unfold verify_uri. rewrite (unquote_plain b Hpl). cbn [bind]. rewrite Hdirty, Hp. cbn [bind].
+  rewrite Hhash, Hb. cbn [bind].
   destruct regs as [|r0 regs0]; [destruct Hin|]. set (regs := r0 :: regs0) in *.
   rewrite Hrs. cbn [bind].
   assert (Hpr : parse_reg (RPair b None) = Ok (p, [])) by (cbn; now rewrite Hp).
@@ -496,18 +514,106 @@ Qed.
 (* native clients: host name and user information are the registered ones; only the port may differ, and
    only as described by norm_native_spec *)
 Corollary verify_uri_sound_native regs oidc u :
-  regs <> [] -> verify_uri regs true oidc u = Ok tt ->
+  verify_uri regs true oidc u = Ok tt ->
   exists d p r rp,
     unquote u = Ok d /\ urlparse d = Ok p /\ In r regs /\ parse_reg r = Ok rp /\
     fragment p = [] /\ scheme p = scheme (fst rp) /\
     hostname p = hostname (fst rp) /\ userinfo_text (netloc p) = userinfo_text (netloc (fst rp)) /\
     path p = path (fst rp) /\ params p = params (fst rp) /\
-    (exists qd, parse_qs (query p) = Ok qd /\ qd_eqb qd (snd rp) = true).
+    (exists qd, parse_qs true (query p) = Ok qd /\ qd_eqb qd (snd rp) = true).
 Proof.
-  intros Hne H. destruct (verify_uri_sound _ _ _ _ Hne H) as (d & p & r & rp & H1 & H2 & H3 & H4 & H5 & H6 & H7 & H8 & H9 & H10 & H11 & H12 & H13 & H14).
+  intros H. destruct (verify_uri_sound _ _ _ _ H) as (d & p & r & rp & H1 & H2 & H3 & H4 & H5 & H6 & H7 & H8 & H9 & H10 & H11 & H12 & H13 & H14 & H15 & H16).
   destruct H14 as (p' & r' & Hp' & Hr' & Hn).
   destruct (norm_native_keeps_host _ _ Hp') as [A1 A2]. destruct (norm_native_keeps_host _ _ Hr') as [B1 B2].
   exists d, p, r, rp. repeat split; auto.
   - rewrite <- A1, <- B1. now apply hostname_netloc.
   - rewrite <- A2, <- B2. now rewrite Hn.
+Qed.
+
+(* ------------------------------------------------------------------ accepted URIs need no repair and carry no fragment delimiter *)
+Lemma unquote_ok_ascii u d : unquote u = Ok d -> is_ascii d = true /\ d = unquote_raw u.
+Proof.
+  unfold unquote. destruct (is_ascii u); cbn [negb]; [|discriminate].
+  destruct (is_ascii (unquote_raw u)) eqn:E; [|discriminate]. intros H. inversion H; subst. auto.
+Qed.
+
+Lemma dirty_false_clean d : is_ascii d = true -> dirty d = false -> clean d = true.
+Proof.
+  unfold dirty, clean. intros Ha H. apply orb_false_iff in H as [H H3]. apply orb_false_iff in H as [H1 H2].
+  rewrite Ha. cbn [andb]. apply andb_true_iff. split.
+  - destruct d as [|c r]; [reflexivity|]. cbn [existsb] in H1. apply orb_false_iff in H1 as [H1 _].
+    apply orb_false_iff in H1 as [H1 _]. apply negb_true_iff. apply N.leb_gt.
+    apply N.ltb_ge in H1. apply N.eqb_neq in H2. lia.
+  - apply forallb_forall. intros c Hc. apply negb_true_iff.
+    assert (Hx : (c <? 32) || (c =? 127) = false).
+    { destruct ((c <? 32) || (c =? 127)) eqn:E; [|reflexivity].
+      assert (existsb (fun c0 => (c0 <? 32) || (c0 =? 127)) d = true) by (apply existsb_exists; eauto). congruence. }
+    apply orb_false_iff in Hx as [Hx _]. apply N.ltb_ge in Hx.
+    repeat (apply orb_false_iff; split); apply N.eqb_neq; lia.
+Qed.
+
+(* unquote keeps every fragment delimiter of the raw text *)
+Lemma unquote_raw_keeps_hash_len n : forall s, (length s <= n)%nat -> has_c 35 s = true -> has_c 35 (unquote_raw s) = true.
+Proof.
+  induction n as [|n IH]; intros s Hl H.
+  - destruct s; [discriminate|cbn in Hl; lia].
+  - destruct s as [|c t]; [discriminate|]. cbn [length] in Hl.
+    unfold has_c in *. cbn [existsb] in H. cbn [unquote_raw].
+    destruct (c =? 37) eqn:E37.
+    + assert (c =? 35 = false) as Ec by (apply N.eqb_eq in E37; subst; reflexivity).
+      rewrite Ec in H. cbn [orb] in H.
+      destruct t as [|h [|l r]].
+      * discriminate.
+      * cbn [existsb]. apply orb_true_iff. right. apply IH; [cbn [length] in *; lia|exact H].
+      * destruct (hexval h) as [a|] eqn:Eh; [destruct (hexval l) as [b0|] eqn:El|].
+        -- (* a decoded byte: h and l are hex digits, so the delimiter is further right *)
+           cbn [existsb] in H.
+           assert (h =? 35 = false) as Hh.
+           { destruct (h =? 35) eqn:X; [|reflexivity]. apply N.eqb_eq in X; subst. discriminate. }
+           assert (l =? 35 = false) as Hl2.
+           { destruct (l =? 35) eqn:X; [|reflexivity]. apply N.eqb_eq in X; subst. discriminate. }
+           rewrite Hh, Hl2 in H. cbn [orb] in H. cbn [existsb]. apply orb_true_iff. right.
+           apply IH; [cbn [length] in Hl; lia|exact H].
+        -- cbn [existsb]. apply orb_true_iff. right. apply IH; [cbn [length] in *; lia|exact H].
+        -- cbn [existsb]. apply orb_true_iff. right. apply IH; [cbn [length] in *; lia|exact H].
+    + cbn [existsb]. apply orb_true_iff in H as [H|H]; [now rewrite H|].
+      apply orb_true_iff. right. apply IH; [lia|exact H].
+Qed.
+Lemma unquote_raw_keeps_hash s : has_c 35 s = true -> has_c 35 (unquote_raw s) = true.
+Proof. apply (unquote_raw_keeps_hash_len (length s)). lia. Qed.
+
+Theorem verify_uri_accepted_clean regs native oidc u :
+  verify_uri regs native oidc u = Ok tt ->
+  exists d, unquote u = Ok d /\ clean d = true /\ has_c 35 d = false /\ has_c 35 u = false.
+Proof.
+  intros H. destruct (verify_uri_sound _ _ _ _ H) as (d & p & r & rp & H1 & H2 & H3 & H4 & H5 & H6 & H7 & H8 & H9 & H10 & H11 & H12 & H13 & H14 & H15 & H16).
+  exists d. destruct (unquote_ok_ascii _ _ H1) as [Ha Hd].
+  repeat split; auto using dirty_false_clean.
+  destruct (has_c 35 u) eqn:E; [|reflexivity].
+  apply unquote_raw_keeps_hash in E. rewrite <- Hd in E. congruence.
+Qed.
+
+(* ------------------------------------------------------------------ the one remaining gap: empty path parameters *)
+Lemma last_is_app_one a s : last_is a (s ++ [a]) = true.
+Proof. unfold last_is. rewrite rev_app_distr. cbn. apply N.eqb_refl. Qed.
+
+(* if neither the request path nor the registered path (as split off by urlsplit) ends in a semicolon, equal
+   (path, params) pairs mean equal path texts *)
+Theorem path_exact_partial d b p rp ps rps :
+  clean d = true -> clean b = true ->
+  urlparse d = Ok p -> urlparse b = Ok rp -> urlsplit d = Ok ps -> urlsplit b = Ok rps ->
+  path p = path rp -> params p = params rp ->
+  last_is 59 (path ps) = false -> last_is 59 (path rps) = false ->
+  path ps = path rps.
+Proof.
+  intros Cd Cb Hp Hrp Hps Hrps Epath Eparams Ld Lb.
+  destruct (urlparse_pieces d p Cd Hp) as (ps' & Hps' & _ & _ & _ & _ & Hd).
+  destruct (urlparse_pieces b rp Cb Hrp) as (rps' & Hrps' & _ & _ & _ & _ & Hb).
+  assert (ps' = ps) by congruence. assert (rps' = rps) by congruence. subst ps' rps'.
+  destruct Hd as [[Pd1 Pd2]|Pd]; destruct Hb as [[Pb1 Pb2]|Pb].
+  - congruence.
+  - (* registered split, request not: registered params are empty, so its path text ends in a semicolon *)
+    exfalso. rewrite <- Eparams, Pd1 in Pb. rewrite Pb in Lb. now rewrite last_is_app_one in Lb.
+  - exfalso. rewrite Eparams, Pb1 in Pd. rewrite Pd in Ld. now rewrite last_is_app_one in Ld.
+  - rewrite Pd, Pb. congruence.
 Qed.
